@@ -208,6 +208,25 @@ let arena_iso (root : int) (pre : acont arena) (am : acont arena) (ar : acont ar
         if (try Hashtbl.find phi i <> i with Not_found -> true) then fail (Printf.sprintf "decision %d of the receiver moved" i)
       | _ -> ()) pre;
   !bad
+(* do the assumptions of C03_arena_compose_prune_refines hold for this case?  (root at key 0; from the root: parent
+   pointers consistent, two child slots, no key twice, terminals without children; no terminal cell outside the tree;
+   lhs: two slots per decision, one of them occupied, not empty) -- counted only *)
+let acprune_hyps (f : itree) (pg : ptree) : bool =
+  let rec karity = function U -> true | T _ -> true
+                            | D (_, ch) -> List.length ch = 2 && List.exists (fun c -> c <> U) ch && List.for_all karity ch in
+  let seen = Hashtbl.create 64 in
+  let rec go par i =
+    match find_node f i with
+    | None -> false
+    | Some nd ->
+      if Hashtbl.mem seen i then false else begin
+        Hashtbl.add seen i ();
+        nd.parent = par && List.length nd.children = 2 &&
+        (if nd.leaf then List.for_all (fun c -> c = None) nd.children
+         else List.for_all (function None -> true | Some c -> go (Some i) c) nd.children)
+      end in
+  f.root = Some 0 && go None 0 && pg <> U && karity pg &&
+  List.for_all (fun nd -> (not nd.leaf) || Hashtbl.mem seen nd.idx) f.nodes
 let replay_acprune ~id (f : itree) (g : itree) (h1 : itree) (log : Sexp.t list) : unit =
   let lplog = List.filter_map (function
       | List (Atom "lp" :: poly :: _ :: st :: _) ->
@@ -218,6 +237,7 @@ let replay_acprune ~id (f : itree) (g : itree) (h1 : itree) (log : Sexp.t list) 
   match ptree_of g with
   | None -> bump "acprune_arena_not_a_tree"
   | Some pg ->
+    bump (if acprune_hyps f pg then "acprune_thm_assumptions_hold" else "acprune_thm_assumptions_fail");
     let big = nat_of_int (List.length af + 2 * ptree_size pg * (1 + List.length f.nodes) + 4) in
     let run alloc = acompose_prune alloc (oracle_by_rows lplog) tol big (nat_of_int root) big pg af in
     (match run next_key with
